@@ -307,6 +307,10 @@ def worker_main(argv):
         mod = importlib.import_module(f"cgv.props.{prop.lower()}")
         ctx = Ctx(prop, tier, seed, worker, nworkers, hashseed, outdir, known)
         ctx.mod = mod
+        if tier == "thorough":
+            from cgv import strategies as _S
+
+            _S.SIZE_BOOST = 1.4
         # exhaustive core, sharded
         ctx.phase = "core"
         for i, case in enumerate(mod.core(ctx)):
